@@ -467,6 +467,27 @@ class Env:
         prob = importlib.import_module("pyhms.core.problem")
         if not P.concrete:
             self.patch(prob, "isnan", core.isnan)
+            # the stdlib math functions a refactoring is likely to reach for (C level: they would call float())
+            import math as _m
+
+            def _isclose(a, b, *, rel_tol=1e-09, abs_tol=0.0):
+                if not is_sym(a) and not is_sym(b):
+                    return _MATH["isclose"](a, b, rel_tol=rel_tol, abs_tol=abs_tol)
+                d = abs(a - b)
+                eq = a == b
+                tol = core.lor(d <= abs(rel_tol * b), d <= abs(rel_tol * a), d <= abs_tol)
+                fin = core.land(core.lnot(core.isinf(a)), core.lnot(core.isinf(b)), core.lnot(core.isnan(a)), core.lnot(core.isnan(b)))
+                return core.lor(eq, core.land(fin, tol))
+
+            def _wrap1(name, f):
+                def g(x):
+                    return f(x) if is_sym(x) else _MATH[name](x)
+                return g
+
+            for name, f in (("isclose", _isclose), ("isnan", _wrap1("isnan", core.isnan)), ("isinf", _wrap1("isinf", core.isinf)),
+                            ("fabs", _wrap1("fabs", abs)),
+                            ("isfinite", _wrap1("isfinite", lambda x: core.land(core.lnot(core.isnan(x)), core.lnot(core.isinf(x)))))):
+                self.patch(_m, name, f)
         P.env = self
         return self
 
@@ -481,6 +502,8 @@ class Env:
 
 
 _MISSING = object()
+import math as _math_mod
+_MATH = {k: getattr(_math_mod, k) for k in ("isclose", "isnan", "isinf", "fabs", "isfinite")}
 
 
 # ----------------------------------------------------------------------------------------------
